@@ -118,12 +118,17 @@ func bigRemoteSuite(c *Ctx) []Finding {
 		for try := 0; try < 5 && !comparable; try++ {
 			os.Remove(lo)
 			os.Remove(ro)
+			// view and view-raw print no "now:" line: the two runs are comparable when no step
+			// boundary of the archive (60 s) fell between the start of the first and the end of
+			// the second — the window of a read moves only then
+			m0 := time.Now().Unix() / 60
 			el = rn.run(root, lo)
 			er = rn.run(base, ro)
+			m1 := time.Now().Unix() / 60
 			var nl, nr string
 			nl, bl = split(lo)
 			nr, br = split(ro)
-			comparable = nl == nr || el != nil || er != nil
+			comparable = (nl == nr && m0 == m1) || el != nil || er != nil
 		}
 		count("big-"+rn.name, fmt.Sprintf("ok comparable=%v bytes=%dk", comparable, len(bl)/1024))
 		switch {
